@@ -211,11 +211,19 @@ class DBHandler:
         assert self._executor_task is not None, "Task is already detached"
 
         logger.info("Syncing database…")
+        cancelled: asyncio.CancelledError | None = None
         try:
             # Wait for all queries in the queue to be written to the database and cancel task afterwards.
             # TODO: this could block infinitely if there are OperationalErrors writing to the database in
             # the `_executor_func()`
-            await self._execute_queue.join()
+            while True:
+                try:
+                    await self._execute_queue.join()
+                    break
+                except asyncio.CancelledError as e:
+                    # Ctrl-C while syncing: the queued rows are still written and the database is
+                    # closed properly; the cancellation is passed on afterwards.
+                    cancelled = e
             self._executor_task.cancel()
             await self._executor_task
         except Exception as e:
@@ -230,6 +238,8 @@ class DBHandler:
             await self.connection.close()
             self.connection = None
         logger.info("Database closed")
+        if cancelled is not None:
+            raise cancelled
 
     async def check_version(self) -> None:
         assert self.connection is not None, "Not connected to the database"
